@@ -100,6 +100,17 @@ CHECKS = {
             "fingerprint ignores gauge changes by construction; documented exemptions (OFS Hamiltonian, optimiser guess) "
             "are not generated; prod(d) <= 120",
             "DESIGN.md section 3 / C13"),
+    "C14": ("fault_enumeration",
+            "fault injection + offline checker over recorded directory states: SIGKILL at every file-system syscall of the "
+            "dump protocol (strace -e inject) and Python-level partial-write/os._exit injection, restart histories over "
+            "the distinct dirty states; round-trip and spill-to-disk differential monitors",
+            "Every crash point of three dumps in generation 1, every crash point of the first dump(s) of jobs restarted "
+            "into each distinct directory state (two generations quick, three thorough), swallowed-IOError histories, "
+            "random-instant kills; dump/load round trips of Mps/MpDm/Mpo/TTNS with identical continuations; "
+            "dump_matrix_size=1 spill runs.",
+            "process death (SIGKILL / os._exit): unflushed Python buffers are lost, kernel buffers are not (power loss out of "
+            "scope); only format versions the library can write",
+            "DESIGN.md section 3 / C14"),
     "C15": ("exploration",
             "reference-model monitor over generated expression programs: each node is evaluated with the library's "
             "operators and denoted as a dense matrix that must equal the matrix expression of its operands; eq/hash laws",
@@ -116,6 +127,15 @@ CHECKS = {
             "Holstein / spin-boson / translation-invariant builders (all schemes, periodic wrap-around).",
             "documented truncation at the highest level; N <= 12, powers <= 6; quadrature tolerance 1e-8",
             "DESIGN.md section 3 / C16"),
+    "C17": ("exploration",
+            "reference-model monitor: qc_model/int_to_h/read_fcidump Hamiltonians vs an independent fermionic matrix built "
+            "from bit strings; swap walks vs the Jordan-Wigner Hamiltonian rebuilt in the new orbital order; OFS runs of "
+            "optimisation and TDVP-PS2 observed through wrappers on try_swap_site / single_sweep",
+            "Static fermionic reference (1..4 spatial orbitals, stacked/flat, with/without quantum numbers, FCIDUMP input), "
+            "operator swaps with and without the Jordan-Wigner correction, on-the-fly swapping in DMRG and evolution with "
+            "all criteria; swaps actually performed are counted and required.",
+            "dense references; overlaps only for non-degenerate ground states; OFS equality only when the OFS-off run reaches it",
+            "DESIGN.md section 3 / C17"),
     "C18": ("exploration",
             "icontract pre/postconditions on expm_krylov, svd_qn, eigh_qn bound on every call site (also active in situ "
             "under canonicalise/compress/TDVP/DMRG workloads), dense expm / SVD references, sys.monitoring line events "
